@@ -28,7 +28,9 @@ def normalise(tr: list[dict]) -> list[dict]:
         if ev == "shutdown":
             continue
         if ev == "connect":
-            out.append({"ev": "connect", "port": e["port"]})
+            out.append({"ev": "connect", "port": e["port"], "host": e["host"]})
+        elif ev == "dns":
+            out.append({"ev": "dns", "qname": e["qname"], "rdtype": e["rdtype"], "search": e["search"]})
         elif ev == "close":
             out.append({"ev": "close"})
         elif ev in ("bind", "alter_context"):
@@ -94,6 +96,32 @@ def one_call(ctx: Ctx, cfg: dict) -> dict:
         ks = dc.keyset(rkid, sd, l0)
         blob = blobref.make_blob(cfg["hash"], ks.l2(l1, l2), rkid, l0, l1, l2, sid, plain, rng.randbytes, domain=cfg["domain"], forest=cfg["forest"])
     kw = dict(server="dc.verif.test", username=USER, password=refdc.PASSWORD, auth_protocol=cfg["proto"])
+    qname, host = "none", "dc.verif.test"
+    if cfg.get("dns") and not cfg["domain"].startswith("."):
+        # no server given: SRV discovery; the answer has several records, the best one (lowest priority, highest weight) decides
+        kw["server"] = None
+        if cfg["op"] == "protect":
+            kw["domain_name"] = cfg["domain"]
+        qname = "_ldap._tcp.dc._msdcs." + cfg["domain"]
+        host = "best." + cfg["domain"]
+    if cfg.get("dc_error"):
+        dc.root_keys.clear()      # the DC does not know the root key: GetKey fails with an HRESULT
+    import dns.asyncresolver
+    import dns.rdata
+    import dns.rdataclass
+    import dns.rdatatype
+    import dns.resolver
+
+    def srv_answer(q: t.Any, rdtype: t.Any = "A", *a: t.Any, **k: t.Any) -> list:
+        dc.transcript.append({"ev": "dns", "qname": str(q), "rdtype": str(rdtype), "search": bool(k.get("search"))})
+        recs = [(10, 5, "worse1." + cfg["domain"] + "."), (0, 1, "lowweight." + cfg["domain"] + "."), (0, 100, host + "."), (7, 200, "worse2." + cfg["domain"] + ".")]
+        return [dns.rdata.from_text(dns.rdataclass.IN, dns.rdatatype.SRV, f"{p} {w} 389 {tg}") for p, w, tg in recs]
+
+    async def asrv_answer(q: t.Any, rdtype: t.Any = "A", *a: t.Any, **k: t.Any) -> list:
+        return srv_answer(q, rdtype, *a, **k)
+
+    o_res = (dns.resolver.resolve, dns.asyncresolver.resolve)
+    dns.resolver.resolve, dns.asyncresolver.resolve = srv_answer, asrv_answer  # type: ignore
     res, named, trs = {}, {}, {}
     for fl in ("sync", "async"):
         dc.transcript.clear()
@@ -123,11 +151,12 @@ def one_call(ctx: Ctx, cfg: dict) -> dict:
             res[fl] = "error:" + type(e).__name__
             named[fl] = [-1, -1, -1]
         trs[fl] = normalise(copy.deepcopy(dc.transcript))
+    dns.resolver.resolve, dns.asyncresolver.resolve = o_res  # type: ignore
     n = cfg["named"] if cfg["op"] == "unprotect" else (-1, -1, -1)
     call = {"op": cfg["op"], "sd": sd.hex(), "rkid": str(rkid) if (cfg["op"] == "unprotect" or cfg["name_rk"]) else "none",
-            "l0": n[0], "l1": n[1], "l2": n[2], "proto": cfg["proto"], "isdPort": cfg["port"], "dcSign": cfg["dc_sign"]}
+            "l0": n[0], "l1": n[1], "l2": n[2], "proto": cfg["proto"], "isdPort": cfg["port"], "dcSign": cfg["dc_sign"], "qname": qname, "host": host}
     return {"call": call, "sync": trs["sync"], "async": trs["async"], "resS": res["sync"], "resA": res["async"], "namedS": named["sync"], "namedA": named["async"],
-            "dcnow": list(cfg["now"]), "replyKind": "pub" if cfg["reply"] == "pubkey" else "seed"}
+            "dcnow": list(cfg["now"]), "replyKind": "hresult" if cfg.get("dc_error") else ("pub" if cfg["reply"] == "pubkey" else "seed")}
 
 
 def configs(ctx: Ctx, n: int) -> list[dict]:
@@ -148,7 +177,7 @@ def configs(ctx: Ctx, n: int) -> list[dict]:
                     "policy": "later" if rng.random() < 0.4 else "requested", "l2_at_31": "absent" if rng.random() < 0.3 else "present",
                     "dc_sign": rng.random() < 0.7, "proto": "negotiate" if i % 5 == 0 else "ntlm", "sid": sid_with(1 + i % 15, rng),
                     "domain": "d" * (i % 9) + ".test", "forest": "f" * ((i // 9) % 9) + ".test", "port": rng.choice([49664, 1025, 65535]),
-                    "name_rk": rng.random() < 0.5, "towers": i % 3})
+                    "name_rk": rng.random() < 0.5, "towers": i % 3, "dns": i % 4 == 1, "dc_error": i % 17 == 5})
     return out
 
 
@@ -169,8 +198,14 @@ def run(ctx: Ctx) -> int:
     slim = [{k: r_[k] for k in r_ if k != "cfg"} for r_ in rows]
     bad, _ = validate(ctx, "TraceOnline", "TraceOnline.cfg", slim, chunk=ctx.pick(60, 400), what="online")
     ctx.cov["traces_validated_against_impl"] = 2 * len(rows)
-    for i, clauses in bad.items():
+    for i, clauses in list(bad.items()):
         r_ = rows[i]
+        ext = [c for c in clauses if c.startswith("EXT_")]
+        for c in ext:
+            ctx.note_drift("extended_behaviour:" + c)      # specified beyond the listed properties: reported, never a VIOLATION
+        clauses = [c for c in clauses if not c.startswith("EXT_")]
+        if not clauses:
+            continue
         if any(c.startswith("MACHINERY") for c in clauses):
             raise MachineryError(f"{clauses}: {r_['cfg']} {r_['resS']} {r_['resA']}")
         c = r_["cfg"]
